@@ -33,8 +33,8 @@ func watchedCall(f func(), done chan<- any) {
 // returned.  When f has not returned after WatchBudget, the goroutine dump is
 // inspected twice, two seconds apart: if both times the watched goroutine is
 // parked in a blocking primitive (lock, channel, wait group) at the same place
-// and no other goroutine is inside library code (nobody is left who could
-// wake it), the call can never return and Watch returns (false, nil, stack).
+// and no other goroutine is running inside library code (those parked in
+// it themselves do not count; nobody is left who could wake it), the call can never return and Watch returns (false, nil, stack).
 // In every other case (still running, or somebody else still working) it keeps
 // waiting; a wall-clock budget alone never decides.
 func Watch(f func()) (returned bool, panicked any, stuck string) {
@@ -89,7 +89,9 @@ func stuckStack() string {
 				}
 			}
 			watched = "[" + m[2] + "] " + strings.Join(frames, " <- ")
-		} else if inLib {
+		} else if inLib && !blockedStates[m[2]] {
+			// somebody is still working inside the library (goroutines that are themselves parked
+			// inside it do not count: they cannot wake anybody)
 			othersInLibrary = true
 		}
 	}
